@@ -94,8 +94,8 @@ type printer struct {
 func (p *printer) indent() {
 	if p.cfg.Indent&Space == 0 {
 		p.w.Write(bytes.Repeat([]byte{'\t'}, p.lv))
-	} else {
-		p.w.Write(bytes.Repeat([]byte{' '}, p.lv*p.cfg.Width))
+	} else if n := p.lv * p.cfg.Width; n > 0 {
+		p.w.Write(bytes.Repeat([]byte{' '}, n))
 	}
 }
 
